@@ -31,14 +31,19 @@ TRUSTED = ["Coq 8.16.1 kernel + vm_compute + primitive floats (theorems themselv
            "folds (reference statistics; re-computed independently by the harness to 1e-12), the margin function's value, "
            "classifier.predict on labelled rows; pandas column handling (pd.concat keeps the first frame's column order)",
            "harness/c19.py, harness/coqgen.py"]
-RULE = ("complete call trees: every word over an alphabet of 4-8 calls (in-/out-of-margin updates, correct / incorrect labels, "
-        "labels with missing / renamed / extra / permuted columns, 0- and 2-row inputs, explicit set_reference) up to depth 6-7 "
-        "(quick) / 7-9 (thorough) from several configurations (k, oracle length, sensitivity, reference batch chosen so that "
-        "warnings and resolutions happen inside the depth and threshold ties occur: md_std = 0, acc_std = 0); random histories of "
-        "20-250 calls (threshold classifier with a user margin function, hard and fractional signals; linear SVC with the default "
-        "margin function), ~15 % illegal calls, explicit set_reference (also while waiting, also renaming columns), oracle "
-        "lengths below k (KFold failure); two-pass cases with the sensitivity set to an attained level/std ratio. "
-        "Non-trivial: the case contains a warning, a refusal and a resolution.")
+RULE = ("complete call trees: every word over an alphabet of 3-8 calls (in- / out-of- / half-margin updates, correct / incorrect labels "
+        "inside / outside the margin, labels with permuted / missing / renamed / extra columns, 0- and 2-row inputs, explicit "
+        "set_reference with the same and with renamed columns) up to depth 3-7 (quick) / 4-9 (thorough) from 6 configurations (k, oracle "
+        "length incl. default and below k, sensitivity, reference batch chosen so that warnings and resolutions happen inside the depth "
+        "and both strict comparisons meet ties: md_std = 0, acc_std = 0); random histories of 20-250 calls steered by the "
+        "implementation's phase (threshold classifier with a user margin function, hard and fractional signals; linear SVC with the "
+        "default margin function), ~15 % calls illegal for the phase, 25 % malformed labels, explicit set_reference (also while waiting, "
+        "also renaming columns before any label is stored), oracle lengths below k (KFold failure); two-pass cases with the sensitivity "
+        "set to an attained level/std ratio. Non-trivial: the case contains a warning, a refusal and a resolution.")
+ASSUMPTIONS = ["quantifier restriction (DESIGN.md C19, proved necessary: C19_oracle_length_below_k_never_resolves): "
+               "oracle_data_length_required >= k; histories start with a successful set_reference whose target column exists",
+               "the k-fold reference statistics, the margin function's value and classifier.predict are oracle inputs of the model "
+               "(validated by recomputation, not verified)"]
 SHARD = 40
 
 COLID = {"a": 1, "b": 2, "y": 3, "c": 4, "z": 5, "t": 6, "a2": 7, "b2": 8}
@@ -699,15 +704,15 @@ def trees(ctx):
     plan = [
         ("A", [U1, U0, LC, LW, lmode("renamed")], 5 if q else 7),
         ("A", [U1, U0, LC, LN, LI, LIW], 4 if q else 5),
-        ("B", [U1, U0, LC, LW, LI], 5 if q else 7),
+        ("B", [U1, U0, LC, LW, LI], 5 if q else 6),
         ("C", [U1, U0, UH, LN, LW, LI], 4 if q else 5),
-        ("D", [U1, U0, LC, LW], 5 if q else 8),
+        ("D", [U1, U0, LC, LW], 5 if q else 7),
         ("D", [U1, LC, LW], 7 if q else 9),
-        ("A", [U1, LC, LW, lmode("perm", LW), lmode("missing"), lmode("extra"), lmode("rows2"), ["un", 2]], 3 if q else 5),
-        ("B", [U1, U0, LW, lmode("perm", LN), lmode("rows0"), ["un", 0], SREF], 3 if q else 5),
+        ("A", [U1, LC, LW, lmode("perm", LW), lmode("missing"), lmode("extra"), lmode("rows2"), ["un", 2]], 3 if q else 4),
+        ("B", [U1, U0, LW, lmode("perm", LN), lmode("rows0"), ["un", 0], SREF], 3 if q else 4),
         ("A", [U1, U0, LC, LW, SREN, SREF], 3 if q else 5),
-        ("E", [U1, U0, LC, LW], 4 if q else 7),
-        ("F", [U1, U0, LC, LW], 3 if q else 6),
+        ("E", [U1, U0, LC, LW], 4 if q else 6),
+        ("F", [U1, U0, LC, LW], 3 if q else 5),
     ]
     cases = []
     for name, alpha, depth in plan:
@@ -846,17 +851,17 @@ def gen_cases(ctx):
     STATS.clear(); _OBS_CACHE.clear()
     cases = trees(ctx)
     rnd = []
-    for _ in range(ctx.scale(30, 500)):
+    for _ in range(ctx.scale(30, 400)):
         c = random_history(ctx)
         if c:
             rnd.append(c)
     nsvc = 0
-    for _ in range(ctx.scale(8, 80)):
+    for _ in range(ctx.scale(8, 60)):
         c = random_history(ctx, svc=True)
         if c:
             rnd.append(c); nsvc += 1
     tp = 0
-    for c in list(rnd[: ctx.scale(15, 250)]):
+    for c in list(rnd[: ctx.scale(15, 200)]):
         if c["cfg"]["clf"] == "thr":
             c2 = two_pass(ctx, c)
             if c2:
